@@ -30,7 +30,9 @@ let show_obj (o : B.robj) =
   | B.RResult r -> Printf.sprintf "%s,R,%s" (hexfield_of_bytes o.B.ro_id) (hexfield_of_bytes r)
   | B.RError e -> Printf.sprintf "%s,E,%d" (hexfield_of_bytes o.B.ro_id) (int_of_z e.M.we_code)
 
-let show_objs = function [] -> "-" | l -> String.concat ";" (List.map show_obj l)
+(* the order of the objects in an array is not part of the property: compared as multisets *)
+let show_objs = function [] -> "-" | l -> String.concat ";" (List.sort compare (List.map show_obj l))
+let sort_objs s = if s = "-" then s else String.concat ";" (List.sort compare (split_on ';' s))
 
 let show_started ps =
   match List.sort compare (List.map hexfield_of_bytes ps) with
@@ -66,7 +68,7 @@ let () =
            | B.OResp (s, b) ->
              let shape = match b with B.BEmpty -> "none" | B.BSingle _ -> "obj" | B.BArray _ -> "arr" in
              Printf.sprintf "%d\t%s\t%s\t%s" (int_of_z s) shape (show_objs (B.shape_objs b)) inv,
-             Printf.sprintf "%s\t%s\t%s\t%s" st sh objs started in
+             Printf.sprintf "%s\t%s\t%s\t%s" st sh (sort_objs objs) started in
          report_case ln ~expected ~got
        | _ -> Printf.printf "BADLINE\t%d\tanswer without request\n" ln)
     | _ -> ());
